@@ -554,6 +554,14 @@ def compare_case(sh, inst, code, ins, regs, flags, hot, cpu):
         c = masked_count(inst, regs)
         size = inst['size']
         cls = 'count=0' if c == 0 else ('count=1' if c == 1 else ('count<n' if c < size else ('count=n' if c == size else 'count>n')))
+    if inst['extra'].get('bitreg'):
+        # bit-string forms: the known defects concern particular offset ranges (negative, beyond the operand): keep the others visible
+        br = inst['extra']['bitreg']
+        parent_ = {'ax': 'eax', 'cx': 'ecx', 'dx': 'edx', 'bx': 'ebx', 'bp': 'ebp', 'si': 'esi', 'di': 'edi'}.get(br, br)
+        v_ = regs[parent_] & ((1 << inst['size']) - 1)
+        if v_ >> (inst['size'] - 1):
+            v_ -= 1 << inst['size']
+        cls = 'bitstring:%s' % ('negative' if v_ < 0 else ('inside-operand' if v_ < inst['size'] else 'beyond-operand'))
     fam = keybase.split('/')[0]
     for loc, detail in problems:
         if loc.startswith('flag:'):
